@@ -183,12 +183,56 @@ func (e *Engine) RunHarness(pkgPath, name string) (*HarnessResult, error) {
 				e.mu.Unlock()
 				solver.Close()
 			}()
+			served := 0
 			for {
 				prefix, ok := e.nextWork()
 				if !ok {
 					return
 				}
 				e.runPath(fn, name, prefix, solver, res)
+				served++
+				if served%1500 == 0 && !solver.dead {
+					// a long-lived z3 -in process degrades (and was seen to stop
+					// answering get-value after tens of MB of push/pop traffic):
+					// recycle it periodically
+					e.mu.Lock()
+					res.Stats.Sat += solver.stats.Sat
+					res.Stats.Unsat += solver.stats.Unsat
+					res.Stats.Unknown += solver.stats.Unknown
+					res.Stats.Errors += solver.stats.Errors
+					res.Stats.Time += solver.stats.Time
+					e.mu.Unlock()
+					solver.Close()
+					ns, err := NewSolver(e.cfg.SolverKind, e.cfg.TimeoutMs)
+					if err == nil {
+						solver = ns
+					} else {
+						solver.dead = true
+					}
+				}
+				if solver.dead {
+					// replace a solver that was killed by the watchdog
+					e.mu.Lock()
+					res.Stats.Sat += solver.stats.Sat
+					res.Stats.Unsat += solver.stats.Unsat
+					res.Stats.Unknown += solver.stats.Unknown
+					res.Stats.Errors += solver.stats.Errors + 1
+					res.Stats.Time += solver.stats.Time
+					res.Aborts["solver killed by watchdog (hard query)"]++
+					e.mu.Unlock()
+					solver.Close()
+					ns, err := NewSolver(e.cfg.SolverKind, e.cfg.TimeoutMs)
+					if err != nil {
+						e.mu.Lock()
+						solverErr = err
+						e.stop = true
+						e.active--
+						e.cond.Broadcast()
+						e.mu.Unlock()
+						return
+					}
+					solver = ns
+				}
 				e.mu.Lock()
 				e.active--
 				e.cond.Broadcast()
